@@ -24,6 +24,7 @@ type Client struct {
 	Port        int
 	Conn        *simnet.Conn
 	Xfers       []*simnet.Conn
+	Abandoned   []*simnet.Conn // transfer connections the client walked away from without closing them
 	HSReply     []byte // bytes of the handshake answer (up to 8)
 	Raw         []byte // everything received after the handshake answer
 	parsed      int
